@@ -3,6 +3,8 @@ import OpusProofs.LayoutRoute
 import OpusProofs.LayoutMs
 import OpusProofs.MatrixDemix
 import OpusProofs.MsEncode
+import OpusProofs.ProjectionImport
+import OpusProofs.LayoutIsqrt
 /-
   Property C10 — "Multistream and projection equal per-stream coding plus the channel mapping".
 
@@ -244,6 +246,37 @@ theorem demix_inverts_mix (o ch : Nat)
 
 example : demixGain 3 = 3050 ∧ demixGain 2 = 0 ∧ entry (product 2 6) 0 0 = 1073719812 ∧
     entry (product 2 6) 2 0 = 22012 ∧ entry (product 3 11) 0 0 = 272343708 := by decide +kernel
+
+/-- **The projection decoder's own copy of the demixing matrix.**  The little-endian int16 coding the
+    encoder exports with `OPUS_PROJECTION_GET_DEMIXING_MATRIX` is inverted by the byte parsing of
+    `opus_projection_decoder_init` for every int16 value; and for each built-in order (with / without the
+    non-diegetic pair) `opus_projection_decoder_create`, given the exported `2·ch·ch` bytes and the
+    encoder's `(ch+1)/2` streams / `ch/2` coupled streams, succeeds with the identity layout and a
+    `ch × ch` matrix whose cells are the restricted built-in demixing matrix — so the product formed with
+    the decoder's copy is exactly the `product o ch` of `demix_inverts_mix`. -/
+theorem import_export_demix :
+    (∀ v : Int, InInt16 v → Projection.importCell (Projection.exportCell v).1 (Projection.exportCell v).2 = v) ∧
+    (∀ o ch, (o, ch) ∈ [(2, 6), (2, 4), (3, 11), (3, 9), (4, 18), (4, 16), (5, 27), (5, 25), (6, 38), (6, 36)] →
+      ∃ d mx bytes pd, demixing o = some d ∧ mixing o = some mx ∧ exportDemixing d ch ch = .ok bytes ∧
+        bytes.length = 2 * ch * ch ∧
+        Projection.decoderCreate true ch ((ch + 1) / 2 : Nat) (ch / 2 : Nat) bytes (2 * ch * ch : Nat) = .ok pd ∧
+        pd.matrix.rows = ch ∧ pd.matrix.cols = ch ∧ subCols pd.matrix ch ch = subCols d ch ch ∧
+        pd.layout = ⟨ch, (ch + 1) / 2, ch / 2, List.range ch⟩ ∧
+        productCols pd.matrix mx ch ch = product o ch) :=
+  ⟨Projection.importCell_exportCell, Projection.import_export⟩
+
+example : Projection.exportCell (-23170) = (0x7E, 0xA5) ∧ Projection.importCell 0x7E 0xA5 = -23170 ∧
+    Projection.decoderCreate true 4 2 2 [0, 64] 32 = .oob ∧
+    Projection.decoderCreate true 4 2 2 [0, 64] 30 = .err .badArg := by decide
+
+/-- **`isqrt32` is the integer square root** on its whole domain (every `1 ≤ n < 2³²`), not just on the
+    channel counts: `r² ≤ n < (r+1)²`. -/
+theorem isqrt32_correct (n : Nat) (h1 : 1 ≤ n) (h2 : n < 2 ^ 32) :
+    isqrt32 n * isqrt32 n ≤ n ∧ n < (isqrt32 n + 1) * (isqrt32 n + 1) :=
+  Layout.isqrt32_correct n h1 h2
+
+example : isqrt32 227 = 15 ∧ isqrt32 4294967295 = 65535 ∧ isqrt32 4294836225 = 65535 ∧ isqrt32 4294836224 = 65534 := by
+  decide +kernel
 
 /-- **A multistream packet is one self-delimited packet per stream, the last in standard framing, all of
     equal duration.**  For every byte string, stream count `n ≥ 1` and API rate:
